@@ -193,7 +193,7 @@ PROPS['C16'] = prop(
                'never returns None (fixed defect, now a stand-in regression); faithful leaves and byte-identical DER '
                're-encoding are a bounded stand-in on the IMPLICIT-free, ANY-free sub-universe.',
     contracts=DEC_SIMPLE[:4], tables=['dispatch'],
-    standins=[dict(module='standins.codec_checks', checks='schemaless', bound='IMPLICIT/ANY-free part of U2 x 4 codecs')],
+    standins=[dict(module='standins.codec_checks', checks='schemaless', bound='IMPLICIT/ANY-free part of U2 x 6 encoded forms (DER, DER read by the BER decoder, indefinite, CER, segmented, indefinite segmented)')],
     explanation='tables (complete) + content decoders (proved) + schemaless round trip (bounded)')
 
 CN = 'contracts.constraint'
@@ -212,7 +212,9 @@ PROPS['C04'] = prop(
                'construction history (insertion order, explicit defaults, clone, BER variant -> decode, prior read-only uses) '
                'is a bounded stand-in over U2.',
     contracts=ENC_FRAMING + INTS[:1] + CER[2:], tables=['dispatch'],
-    standins=[dict(module='standins.object_checks', checks='histories', bound=U2 + ' x 10 construction histories per value')],
+    standins=[dict(module='standins.object_checks', checks='histories', bound=U2 + ' x 10 construction histories per value'),
+              dict(module='standins.codec_checks', checks='schemaless',
+                   bound='IMPLICIT/ANY-free part of U2 x 6 encoded forms read without a guiding type, DER of the result')],
     explanation='sort-key and framing contracts (proved); construction histories (bounded)')
 
 PROPS['C08'] = prop(
@@ -516,7 +518,7 @@ PROPS['C18']['contracts'] = PROPS['C18']['contracts'] + OPEN_N
 PROPS['C06']['contracts'] = PROPS['C06']['contracts'] + [c for c in WRAPPER if c not in PROPS['C06']['contracts']]
 PROPS['C08']['contracts'] = PROPS['C08']['contracts'] + [c for c in READS[2:4] + ITER if c not in PROPS['C08']['contracts']]
 CREATE = [(D, 'ber.decoder::AbstractSimplePayloadDecoder._createComponent')]
-for _p in ('C10', 'C16', 'C12', 'C01'):
+for _p in ('C10', 'C16', 'C12', 'C01', 'C04'):
     PROPS[_p]['contracts'] = PROPS[_p]['contracts'] + CREATE
 RAW_DEF = [(D, 'ber.decoder::RawPayloadDecoder.valueDecoder')]
 for _p in ('C13', 'C09', 'C07'):
